@@ -181,6 +181,10 @@ class TransactionalizedFIFO(Elaboratable):
         with m.Else():
             m.d.comb += read_port.addr.eq(current_read_pointer)
 
+        # If we're rewinding our reads, the next value to present is the one at the committed position.
+        with m.If(self.read_discard):
+            m.d.comb += read_port.addr.eq(committed_read_pointer)
+
 
         # If we're reading from our the fifo, update our current read position.
         with m.If(self.read_en & ~self.empty):
